@@ -829,7 +829,11 @@ class Object(base.Symbolic, metaclass=ObjectMeta):
     """Tests symbolic less-than."""
     if type(self) is not type(other):
       return base.lt(self, other)
-    return base.lt(self._sym_attributes, other._sym_attributes)  # pylint: disable=protected-access
+    lattrs, rattrs = self._sym_attributes, other._sym_attributes  # pylint: disable=protected-access
+    if list(lattrs.keys()) == list(rattrs.keys()):
+      # Fields are compared in their declaration order.
+      return base.lt(list(lattrs.sym_values()), list(rattrs.sym_values()))
+    return base.lt(lattrs, rattrs)
 
   def sym_hash(self) -> int:
     """Symbolically hashing."""
